@@ -71,14 +71,20 @@ func (s BPlusTreeStore) Get(table storage.Table, key []byte) (*storage.KVPair, e
 }
 
 func (s BPlusTreeStore) GetLast(table storage.Table) (*storage.KVPair, error) {
-	result := new(storage.KVPair)
-	s.db.DescendGreaterThan(KVItem{[]byte{table.Prefix()}, nil}, func(i btree.Item) bool {
+	var result *storage.KVPair
+	prefix := table.Prefix()
+	// the greatest key of this table is the greatest key below the next prefix
+	s.db.DescendLessOrEqual(KVItem{[]byte{prefix + 1}, nil}, func(i btree.Item) bool {
 		item := i.(KVItem)
-		result.Key = item.Key[1:]
-		result.Value = item.Value
+		if item.Key[0] > prefix {
+			return true // the empty key of the next table, keep descending
+		}
+		if item.Key[0] == prefix {
+			result = &storage.KVPair{Key: item.Key[1:], Value: item.Value}
+		}
 		return false
 	})
-	if result.Key == nil {
+	if result == nil {
 		return nil, storage.ErrKeyNotFound
 	}
 	return result, nil
@@ -137,6 +143,7 @@ type BPlusKVPairReader struct {
 	prefix  byte
 	db      *btree.BTree
 	lastKey []byte
+	started bool // lastKey has already been returned to the caller
 }
 
 func NewBPlusKVPairReader(table storage.Table, db *btree.BTree) *BPlusKVPairReader {
@@ -154,12 +161,16 @@ func (r *BPlusKVPairReader) Read(buffer []*storage.KVPair) (n int, err error) {
 			return false
 		}
 		key := i.(KVItem).Key
-
-		if bytes.Compare(key[:1], r.lastKey[:1]) == 0 && bytes.Compare(key, r.lastKey) != 0 {
-			buffer[n] = &storage.KVPair{key[1:], i.(KVItem).Value}
-			n++
+		if key[0] != r.prefix {
+			return false // end of this table
 		}
+		if r.started && bytes.Equal(key, r.lastKey) {
+			return true // returned by the previous Read
+		}
+		buffer[n] = &storage.KVPair{key[1:], i.(KVItem).Value}
+		n++
 		r.lastKey = key
+		r.started = true
 		return true
 	})
 	return n, nil
